@@ -24,7 +24,7 @@ def run(ctx):
                label="codec: all 4096 bitmaps, all 87381 byte strings of length 0..8")
     ctx.tlc_mc(fam, "BitmapCodec", "BitmapCodec_MC_block.cfg", workers=4, coverage=ctx.thorough,
                label="blocks: all 511 integers of 4 base-4 digits, both kinds")
-    ctx.tlc_mc(fam, "BitmapCodec", "BitmapCodec_MC_list.cfg", workers=4, label="list forms: all pairs of blocks")
+    ctx.tlc_mc(fam, "BitmapCodec", "BitmapCodec_MC_list.cfg", workers=4, label="list forms: all pairs of blocks with 0-2 or all members")
     if ctx.thorough:
         ctx.tlc_mc(fam, "BitmapCodec", "BitmapCodec_MC_big.cfg", workers=16, timeout=3000, heap="8g",
                    label="codec: all 65536 bitmaps of 16 elements, all 349525 byte strings of length 0..9")
@@ -78,6 +78,13 @@ def run(ctx):
         "reverse list forms: the order in which the blocks are visited is left open (BigU32s walks the list "
         "forwards, U32BitTips backwards); per-block order, truncation to n and completeness are checked",
         "list forms and GetN with negative n (make panics) are outside the property",
+        "the byte string given to Unmarshal / New...FromData is compared with a private copy after the call "
+        "(`inmut` must be true); for arbitrary bytes the caller's buffer is one reused region overwritten right "
+        "after the call, before the decoded bitmap is read",
+        "late traces (about half): Marshal's bytes, list-form results and iterator slices are kept as returned and "
+        "rendered when the trace is over; a call that does not return within 40 s is a rejected `hang` event",
+        "concurrent read rounds (also as the first use of the package in 6 fresh processes): a bitmap, its bytes "
+        "and two blocks nobody writes are shared by 8 goroutines (Marshal, Unmarshal into own bitmaps, GetN, lists)",
     ]
     return ctx.finish(
         rule="round trips for member counts 0,1,2,3,31,62..66,100,127..129,512,1000,1022..1024 + seeded random "
@@ -86,7 +93,11 @@ def run(ctx):
              "odd, too long, 128 random / sparse-looking / all ones / single bit), three entry points; block "
              "scenarios for 44 int64 and 20 uint32 boundary integers + seeded random in and out of range: build, "
              "iterate both ways, extend with members / neighbours / other blocks / out-of-range, complement, "
-             "list forms; plans = TLC simulation of BitmapCodec.tla over boundary integers",
+             "list forms; every round trip decoded twice from the same source through two entry points and once "
+             "more as New...FromData with block numbers 0, 1, 2^22-1, 2^22, 2^32-2, then iterated; two Marshals "
+             "before the first result is used; parameterless constructors filled by Set; 64-bit extremes of the "
+             "iterator budget; byte lengths up to 65537; concurrent read-only and cold-start rounds; "
+             "plans = TLC simulation of BitmapCodec.tla over boundary integers",
         explanation="BitmapCodec.tla model-checked (denotation, round trip, digit arithmetic against true "
                     "integers, code model conforms, 4 deviations caught); every reply, error flag, Start and "
                     "raw-word projection recorded from the real code must be allowed by the spec")
